@@ -81,7 +81,7 @@ pub fn shuffle<T>(rng: &mut Rng, v: &mut Vec<T>) {
 pub fn gen_flat_doc(rng: &mut Rng, size: usize, hermes: bool) -> Value {
     let nsrc = rng.below(4);
     let nnm = rng.below(4);
-    let nseg = rng.below((size * 8) as u64 + 1) as usize;
+    let nseg = if rng.chance(1, 15) { 150 + rng.below(400) as usize } else { rng.below((size * 8) as u64 + 1) as usize };
     let neg = rng.chance(1, 4);
     let text = gen_mappings(rng, nseg, nsrc, nnm, neg);
     let sources: Vec<Value> = (0..nsrc).map(|_| if rng.chance(1, 8) { json!([]) } else { json!([cps(*rng.pick(SRC_POOL))]) }).collect();
